@@ -99,6 +99,8 @@ class Driver:
         name, fut = self.pending_cmd
         self.pending_cmd = None
         st = t.EmberStatus.SUCCESS if code == 1 else t.EmberStatus.NOT_JOINED if code == 2 else t.EmberStatus.ERR_FATAL
+        if self.ez.ezsp_version >= 14:
+            st = t.sl_Status.OK if code == 1 else t.sl_Status.NOT_JOINED if code == 2 else t.sl_Status.FAIL
         if code == 1:
             self._scan_phase = "event"
         fut.set_result([st])
@@ -114,7 +116,8 @@ class Driver:
                 self.ez.handle_callback("energyScanResultHandler", [t.uint8_t(f[1]), t.int8s(-40)])
             else:
                 self.ez.handle_callback("scanCompleteHandler",
-                                        [t.uint8_t(0), t.EmberStatus.SUCCESS if f[1] else t.EmberStatus.ERR_FATAL])
+                                        [t.uint8_t(0), (t.EmberStatus.SUCCESS if f[1] else t.EmberStatus.ERR_FATAL)
+                                         if self.ez.ezsp_version < 14 else (t.sl_Status.OK if f[1] else t.sl_Status.FAIL)])
         self.loop.settle()
         self.end()
 
@@ -181,9 +184,12 @@ def _ember(unified):
 
 
 def run_events(events):
-    d = Driver()
+    ver = [e[1] for e in events if e[0] == "v"]
+    d = Driver(ver[0]) if ver else Driver()
     try:
         for e in events:
+            if e[0] == "v":
+                continue
             if e[0] == "start":
                 d.start(e[1])
             elif e[0] == "reply":
@@ -239,6 +245,15 @@ class Check(PropertyCheck):
                     # one event before the start (must be ignored), then the operation
                     pre = [rng.choice(rel)] if rng.random() < 0.3 and n < depth else []
                     cases.append(pre + [("start", k)] + list(seq))
+        # the same short histories on the other protocol generations (the stack status arrives as a legacy status up to
+        # version 13 and as a unified one from 14 on)
+        for ver in ((4, 13, 14) if tier == "quick" else (4, 5, 7, 9, 12, 13, 14)):
+            for k in KINDS:
+                rel = [a for a in atoms if not (a[0] == "cbs" and a[1][0][0] in ("item", "complete") and k != "scan")
+                       and not (a == ("reply", 2) and k != "bringup")]
+                for n in range(0, 3):
+                    for seq in itertools.product(rel, repeat=n):
+                        cases.append([("v", ver), ("start", k)] + list(seq))
         # back-to-back callbacks
         for k in KINDS:
             for _ in range(40 if tier == "quick" else 400):
@@ -302,7 +317,7 @@ class Check(PropertyCheck):
                 out.append("(2, 0, [" + "; ".join(fr) + "])")
             elif e[0] == "timeout":
                 out.append("(3, 0, [])")
-            elif e[0] == "churn":
+            elif e[0] in ("churn", "v"):
                 continue          # not an event of the operation: the model does not see it
             else:
                 out.append("(4, 0, [])")
@@ -312,7 +327,7 @@ class Check(PropertyCheck):
         if "crash" in obs:
             return [-99]
         z = []
-        for ev, st in zip(case, obs["steps"]):
+        for ev, st in zip([e for e in case if e[0] != "v"], obs["steps"]):
             if ev[0] == "churn":
                 continue
             for e in st:
@@ -333,6 +348,7 @@ class Check(PropertyCheck):
         """the property's clauses on the implementation's own trace"""
         if "crash" in obs:
             return f"raised {obs['crash']}"
+        case = [e for e in case if e[0] != "v"]      # the protocol version marker is not an event
         active = None          # (kind, replied_ok, matching_event_seen, items, completed)
         for ev, st in zip(case, obs["steps"]):
             dones = [e for e in st if e[0] == "done"]
@@ -370,6 +386,12 @@ class Check(PropertyCheck):
                 elif res[0] == 3 and active["event"] and active["reply"] == 1:
                     return f"{k} timed out although the matching event arrived after the command was issued"
                 active = None
+            if active is not None and not dones and active["k"] != "scan" and active["reply"] == 1 and active["event"] \
+                    and ev[0] in ("reply", "cbs"):
+                # both halves are there (the command was accepted, the matching event arrived after it was issued): the
+                # operation completes in the step that brings the second half
+                return (f"{active['k']}: the command was accepted and the matching stack-status event has arrived, but the "
+                        f"operation did not complete")
             if ev[0] in ("timeout",) and active is not None and active["reply"] == 1 and not active["event"] \
                     and active["k"] != "scan" and not dones:
                 return f"{active['k']}: the operation timeout expired but the operation did not raise"
